@@ -317,7 +317,7 @@ func (H) Execute(scAny any, cfg simrt.Config, st *core.Stats) (*simrt.Outcome, *
 		return out, v
 	}
 	if out.Truncated {
-		return out, nil
+		return out, core.NoProgress(out)
 	}
 	// drain what is left in the channel
 	var left []int
